@@ -377,6 +377,16 @@ func (l *BlockchainRpcTxWatcher) observationLoop(
 				return
 			}
 
+			// The notification we are handling can be older than the chain
+			// state the observer just looked at (blocks keep arriving while
+			// an earlier query is still running, e.g. on a node that is
+			// catching up). A tx that confirmed above the notified height has
+			// no confirmations as of that height; the subtraction below would
+			// wrap around. Wait for the notification of a later block.
+			if firstSeen > current {
+				continue
+			}
+
 			// Now check if we got enough confirmations. We use first seen - 1
 			// as this is the block the tx was confirmed in the first time.
 			if current-(firstSeen-1) >= l.requiredConfs {
